@@ -430,55 +430,112 @@ def lean_storage(st):
 FACTORIES = ["solver", "lsearchk", "lsearch0", "loss", "splitter", "tuner", "generator", "wlearner", "linear", "datasource", "function"]
 
 
+def read_tree(t):
+    """`<'type_id> <n> (<'name> <state>)*n <k> (<child> <tree>)*k` from a vlib.Toks -> (type_id, [(name, state)], [(child, tree)])"""
+    ty = unq(t.s()); n = t.int()
+    params = []
+    for _ in range(n):
+        name = unq(t.s())
+        params.append((name, read_state(t)))
+    k = t.int()
+    kids = []
+    for _ in range(k):
+        child = t.s()
+        kids.append((child, read_tree(t)))
+    return (ty, params, kids)
+
+
 def parse_dump(res):
-    """`ok ; F 'id 'type n ('name state)* ; …` -> [(factory, id, type_id, [(name, state)])]"""
+    """`ok ; F 'id 'type n ('name state)* k (child F' 'id')* ; … ; owner K <tree> ; …`
+    -> [(factory, id, type_id, [(name, state)], [(child, factory, id)])]  +  .owners = [(kind, tree)] (attribute of the list)"""
     if not res.startswith("ok"):
         raise Broken("translate:FactoryParams", "the factory dump did not answer ok: " + res[:300])
-    entries = []
+    entries = Entries()
     for rec in res[2:].split(" ; "):
         rec = rec.strip().lstrip(";").strip()
         if not rec:
             continue
         t = vlib.Toks(rec)
-        f = t.s(); id_ = unq(t.s()); ty = unq(t.s()); n = t.int()
-        params = []
-        for _ in range(n):
-            name = unq(t.s())
-            params.append((name, read_state(t)))
+        f = t.s()
+        if f == "owner":
+            kind = t.s()
+            entries.owners.append((kind, read_tree(t)))
+        else:
+            id_ = unq(t.s()); ty = unq(t.s()); n = t.int()
+            params = []
+            for _ in range(n):
+                name = unq(t.s())
+                params.append((name, read_state(t)))
+            kids = []
+            for _ in range(t.int()):
+                child = t.s(); cf = t.s(); cid = unq(t.s())
+                kids.append((child, cf, cid))
+            entries.append(Entry((f, id_, ty, params), kids))
         if not t.done():
             raise Broken("translate:FactoryParams", "trailing tokens in dump record " + rec[:100])
-        entries.append((f, id_, ty, params))
     return entries
+
+
+class Entry(tuple):
+    """(factory, id, type_id, params) — a 4-tuple as before — with the ids of the owned objects as attribute `kids`"""
+    def __new__(cls, t, kids):
+        e = super().__new__(cls, t)
+        e.kids = kids
+        return e
+
+
+class Entries(list):
+    def __init__(self):
+        super().__init__()
+        self.owners = []
+
+
+def lean_params(params, indent):
+    if not params:
+        return "[]"
+    sep = ",\n" + " " * indent
+    return "[\n" + " " * indent + sep.join(f"({lean_str(n)}, {lean_storage(st)})" for n, st in params) + "]"
+
+
+def lean_tree(tree, indent):
+    ty, params, kids = tree
+    pad = " " * indent
+    ks = "[]" if not kids else ("[\n" + pad + "  " + (",\n" + pad + "  ").join(
+        f"({lean_str(c)}, {lean_tree(k, indent + 4)})" for c, k in kids) + "]")
+    return f".node {lean_str(ty)} {lean_params(params, indent + 4)}\n{pad}  {ks}"
 
 
 def factoryparams_text(entries):
     out = ["-- GENERATED by tools/props/c19.py from a run of harness/c19.cpp (`factory dump`) on the current build of the repository — do not edit",
-           "import NanoVerif.Model.Parameter",
-           "/-! every id of the 11 factories with every registered parameter (kind, bounds, comparators, default value);",
-           "    doubles are exact (`XF.fin sign mantissa exponent`). -/",
+           "import NanoVerif.Model.Configurable",
+           "/-! every id of the 11 factories with every registered parameter (kind, bounds, comparators, default value) and the",
+           "    ids of the objects it owns (child, factory, id); the default constructed owners that no factory hands out",
+           "    (`ml::params_t`, `gboost_model_t`) as whole configuration trees; doubles are exact (`XF.fin sign mantissa exponent`). -/",
            "namespace NanoVerif.Gen.FactoryParams",
            "open NanoVerif.Param",
            "",
-           "structure Entry where",
-           "  factory : String",
-           "  id : String",
-           "  typeId : String",
-           "  params : List (String × Storage XF)",
+           "/-- factory, id, type_id, registered parameters, owned objects as (child, factory, id) -/",
+           "abbrev Entry := FactoryEntry XF",
            ""]
     for f in FACTORIES:
         es = [e for e in entries if e[0] == f]
         out.append(f"def entries_{f} : List Entry := [")
         rows = []
-        for (_, id_, ty, params) in es:
-            ps = ",\n      ".join(f"({lean_str(n)}, {lean_storage(st)})" for n, st in params)
-            rows.append(f"  ⟨{lean_str(f)}, {lean_str(id_)}, {lean_str(ty)}, [\n      {ps}]⟩" if params else
-                        f"  ⟨{lean_str(f)}, {lean_str(id_)}, {lean_str(ty)}, []⟩")
+        for e in es:
+            (_, id_, ty, params) = e
+            kids = getattr(e, "kids", [])
+            ks = "[" + ", ".join(f"({lean_str(c)}, {lean_str(cf)}, {lean_str(cid)})" for c, cf, cid in kids) + "]"
+            rows.append(f"  ⟨{lean_str(f)}, {lean_str(id_)}, {lean_str(ty)}, {lean_params(params, 6)}, {ks}⟩")
         out.append(",\n".join(rows) + "]")
         out.append("")
     out.append("/-- one chunk per factory -/")
     out.append("def chunks : List (List Entry) := [" + ", ".join("entries_" + f for f in FACTORIES) + "]")
     out.append("")
     out.append("def table : List Entry := chunks.flatten")
+    out.append("")
+    out.append("/-- the default constructed owners (kind, configuration tree) -/")
+    out.append("def owners : List (String × Tree XF) := [")
+    out.append(",\n".join(f"  ({lean_str(k)}, {lean_tree(t, 4)})" for k, t in getattr(entries, "owners", [])) + "]")
     out.append("")
     out.append("end NanoVerif.Gen.FactoryParams")
     out.append("")
